@@ -343,7 +343,10 @@ LookupTmpl(g, name, k) ==
                    ELSE LookupTmpl(g, name, k - 1)
          ELSE [found |-> FALSE]
 
-WxsScopes(file) == [i \in 1..Len(file.wxs) |->
+(* a module flagged `late` is set through the group API after the file was parsed (set_inline_script_content with a
+   new name): no identifier of the parsed template refers to it, and every scope keeps its meaning *)
+IsEarly(w) == "late" \notin DOMAIN w
+WxsScopes(file0) == LET file == [file0 EXCEPT !.wxs = SelectSeq(file0.wxs, IsEarly)] IN [i \in 1..Len(file.wxs) |->
     [n |-> file.wxs[i].n, v |-> VO(file.wxs[i].members),
      lp |-> IF "src" \in DOMAIN file.wxs[i]
             THEN [ok |-> TRUE, root |-> "script", keys |-> <<>>,     \* `src` is the spelling, `key` (if given) the path it resolves to
